@@ -91,7 +91,15 @@ def first_line_syntax_error(path: str) -> bool:
             "except Exception as e:\n    print(-1)\n")
     p = common.run(["/usr/bin/python3", "-c", code, path], cpu_s=20)
     out = p.stdout.strip()
-    return out in ("0", "-1", "ok", "")
+    if out in ("0", "-1", "ok", ""):
+        return True
+    # PyYAML only warns about an unknown %DIRECTIVE and reports a later error; yaml.v3 stops at the directive. If the file *starts*
+    # with such a directive the problem is on the first line as well.
+    try:
+        with open(path, "rb") as f:
+            return f.read(1) == b"%"
+    except OSError:
+        return False
 
 
 ENCODING_LEVEL = ("unknown anchor", "control characters are not allowed", "invalid leading UTF-8", "invalid trailing UTF-8", "incomplete UTF-8", "invalid Unicode",
